@@ -17,9 +17,13 @@ func (d *vData) DataName() dvid.InstanceName { return "vdata" }
 // after a short write/delete history over a branched DAG in the source, a full copy reads identically to the source
 // at every version, a flattened copy made at version V reads like the source as seen from V, other instances in the
 // target store are untouched and the source store is unchanged.
-// Params: DAG nodes, max parents, writes, flatten (0/1), same store (1) or another store (0).
+// Params: DAG nodes, max parents, writes, flatten (0/1), same store (1) or another store (0), structured (0/1).
+// structured = 1: version ids 1..n in creation order, fixed instance ids and datum keys, write w goes to node w+1 —
+// only the DAG shape, the kind of each write and the values stay open, which lets the history grow to one write per node.
 func VerifC19_Copy() {
 	n, maxPar, writes, flatten, same := vh.Param(0), vh.Param(1), vh.Param(2), vh.Param(3) == 1, vh.Param(4) == 1
+	structured := vh.Param(5) == 1
+	vConcreteVids = structured
 	d := vChooseDAG(n, maxPar)
 	d.vInstall(nil)
 	src, srcModel := dvidbadger.VerifNewModelDB()
@@ -27,20 +31,31 @@ func VerifC19_Copy() {
 	if !same {
 		dst, dstModel = dvidbadger.VerifNewModelDB()
 	}
-	d1 := &vData{id: dvid.InstanceID(vh.U32("srcInst"))}
-	d2 := &vData{id: dvid.InstanceID(vh.U32("dstInst"))}
-	d3 := &vData{id: dvid.InstanceID(vh.U32("otherInst"))}
+	var d1, d2, d3 *vData
+	if structured {
+		d1, d2, d3 = &vData{id: 5}, &vData{id: 7}, &vData{id: 6}
+	} else {
+		d1 = &vData{id: dvid.InstanceID(vh.U32("srcInst"))}
+		d2 = &vData{id: dvid.InstanceID(vh.U32("dstInst"))}
+		d3 = &vData{id: dvid.InstanceID(vh.U32("otherInst"))}
+	}
 	vh.Assume(d1.id != d2.id && d3.id != d1.id && d3.id != d2.id)
 	// instance-wide key ranges are complete only below the maximum id (see C06 and DESIGN.md: boundary note)
 	vh.Assume(d1.id != dvid.MaxInstanceID && d2.id != dvid.MaxInstanceID)
 	tks := []storage.TKey{vUserTKey([]byte{vh.U8("k1")}), vUserTKey([]byte{vh.U8("k2")})}
+	if structured {
+		tks = []storage.TKey{vUserTKey([]byte{'a'}), vUserTKey([]byte{'b'})}
+	}
 	vh.Assume(!bytes.Equal(tks[0], tks[1]))
 	at := func(data *vData, node int) *VersionedCtx { return NewVersionedCtx(data, d.vids[node]) }
 
 	// a bystander instance in the target store
 	vh.Assert(dst.Put(at(d3, 1), tks[0], []byte{vh.U8("otherValue")}) == nil, "bystander write")
 	for w := 0; w < writes; w++ {
-		node := 1 + vh.Choice("writeNode", n)
+		node := 1 + w%n
+		if !structured {
+			node = 1 + vh.Choice("writeNode", n)
+		}
 		k := vh.Choice("writeKey", 2)
 		if vh.Choice("isDelete", 2) == 1 {
 			vh.Assert(src.Delete(at(d1, node), tks[k]) == nil, "Delete succeeds")
